@@ -696,14 +696,23 @@ TAGMAP_CLS = Obj('type', {}, name='TagMap-class')
 
 
 def _guiding_type(ex, env):
-    ts = Obj('TagSet', {'baseTag': Obj('Tag', {}, name='asn1Spec.baseTag')}, name='asn1Spec.tagSet')
+    ts = Obj('TagSet', {'baseTag': Obj('Tag', {}, name='asn1Spec.baseTag')}, {'__getslice__': _spec_tagset_slice},
+             name='asn1Spec.tagSet')
     tm = _by_identity_map('asn1Spec.tagMap', [('tagSet', 'spec.tagMap.has', True)])
     return Obj('Asn1Type', {'tagSet': ts, 'tagMap': tm, 'typeId': 'spec-type-id', '__class__': ASN1TYPE_CLS},
                name='asn1Spec')
 
 
 def _sel_tagset_ctor(ex, base=None, *tags):
-    return Obj('TagSet', {}, name='baseTagSetOfSpec')
+    # the key under which a codec serves a whole family of types: TagSet(baseTag, baseTag) of the guiding type -- anything
+    # else (other tags, more tags, a slice of the type's tag set, which starts at the *innermost* tag) is another key
+    if isinstance(base, Obj) and base.name in ('asn1Spec.baseTag', 'chosen.baseTag') and len(tags) == 1 and tags[0] is base:
+        return Obj('TagSet', {}, name='baseTagSetOfSpec')
+    return Obj('TagSet', {}, name='someOtherTagSet')
+
+
+def _spec_tagset_slice(ex, self, lo, hi):
+    return Obj('TagSet', {}, name='sliceOfTheTypesTagSet')
 
 
 BY_SPEC = region(
@@ -745,7 +754,9 @@ CONTRACTS = CONTRACTS + [BY_TAG, BY_SPEC]
 
 
 # the same state when the guide is a TagMap (members of a SET / alternatives of an untagged CHOICE member)
-CHOSEN_T = Obj('Asn1Type', {'tagSet': Obj('TagSet', {'baseTag': Obj('Tag', {}, name='chosen.baseTag')}, name='chosen.tagSet'),
+CHOSEN_T = Obj('Asn1Type', {'tagSet': Obj('TagSet', {'baseTag': Obj('Tag', {}, name='chosen.baseTag')},
+                                          {'__getslice__': lambda ex, self, lo, hi: _spec_tagset_slice(ex, self, lo, hi)},
+                                          name='chosen.tagSet'),
                             'typeId': 'chosen-type-id'}, name='chosenType')
 
 
